@@ -93,7 +93,7 @@ class Engine:
         self.axioms = []
         self.dropped = set()          # what extraction dropped (logger calls etc.)
         self.nforks = 0
-        self.axiom_arrays = AXIOM_ARRAYS
+        self.axiom_arrays = AXIOM_ARRAYS or getattr(unit, "axiom_arrays", False)
         self.havocked = set()
         self.deadline = None
         self.binders = []             # index variables of enclosing comprehensions (contract results become functions of them)
@@ -396,6 +396,11 @@ class Engine:
             return a
         k = z3.Int(f"k!{next(_v._cnt)}")
         arrs = {p: self.mk_array(k, z3.If(k < a.len, z3.Select(a.arrs[p], k), z3.Select(b.arrs[p], k - a.len))) for p in a.arrs}
+        if self.axiom_arrays and _v.BOUND is None:
+            # instantiation-friendly consequences of the definition (triggers on reads of the operands)
+            for p in a.arrs:
+                self.axioms.append(z3.ForAll([k], z3.Implies(z3.And(0 <= k, k < b.len), z3.Select(arrs[p], a.len + k) == z3.Select(b.arrs[p], k)), patterns=[z3.Select(b.arrs[p], k)]))
+                self.axioms.append(z3.ForAll([k], z3.Implies(z3.And(0 <= k, k < a.len), z3.Select(arrs[p], k) == z3.Select(a.arrs[p], k)), patterns=[z3.Select(a.arrs[p], k)]))
         return VSeq(arrs, a.len + b.len, a.shape)
 
     def cmp_int(self, op, a, b):
